@@ -197,7 +197,7 @@ class Reread(object):
             replay)
         by_name = dict((c.name, (c, e)) for c, e in zip(cur_cfgs, cur_enc))
         for c, e in zip(new_cfgs, new_enc):
-            if c.name in by_name:
+            if c.name in by_name and not (chk.tier == 'quick' and 'edit_sequence' in replay):
                 oc, oe = by_name[c.name]
                 ne, eqm = bool(c != oc), bool(c.__eq__(oc))
                 self.ne.add(lambda itn, e=e, oe=oe, ne=ne, eqm=eqm: '(%s, %s, %s, %s)' % (
